@@ -170,7 +170,7 @@ func cyclePrograms(r *rng.R, k int) []cycleCase {
 			for i := 0; i < n; i++ {
 				ds = append(ds, &Def{Kind: 'T', Name: name("T", i), Ty: tref(name("T", i+1))})
 			}
-			one := &CV{Kind: 'i', I: 1}
+			one := []*CV{{Kind: 'i', I: 1}, {Kind: 'b', B: true}, {Kind: 'd', D: 1.5}, {Kind: 's', S: "x"}, {Kind: 'l'}, {Kind: 'm'}}[r.Intn(6)]
 			switch variant {
 			case 0:
 				ds = append(ds, &Def{Kind: 'C', Name: "c", Ty: tref(name("T", r.Intn(n))), Val: one})
@@ -265,6 +265,38 @@ func cyclePrograms(r *rng.R, k int) []cycleCase {
 				Defs: []*Def{{Kind: 'S', SKind: 's', Name: "S", Fields: []*Field{{ID: i64p(1), Name: "f", Req: 'o', Ty: tref(nx + ".S")}}}}})
 		}
 		add(p, fmt.Sprintf("include loop len %d", n), "")
+		// the same loop carrying a service cycle, a constant cycle, a typedef cycle across the files
+		for variant := 0; variant < 3; variant++ {
+			q := &Prog{Strict: true}
+			for i := 0; i < n; i++ {
+				nx := fn[(i+1)%n]
+				var d *Def
+				switch variant {
+				case 0:
+					d = &Def{Kind: 'V', Name: "V", Parent: nx + ".V", Funcs: []*Func{{Name: "m"}}}
+				case 1:
+					d = &Def{Kind: 'C', Name: "c", Ty: &TExpr{Kind: []string{"i32", "string"}[r.Intn(2)]}, Val: cref(nx + ".c")}
+				default:
+					d = &Def{Kind: 'T', Name: "T", Ty: wrapType(r, tref(nx+".T"))}
+				}
+				q.Files = append(q.Files, &File{Path: fn[i] + ".thrift", Includes: []Include{{Path: "./" + nx + ".thrift"}}, Defs: []*Def{d}})
+			}
+			add(q, fmt.Sprintf("include loop len %d with a %s cycle across it", n, []string{"service", "constant", "typedef"}[variant]), "")
+		}
+		// mutually nested struct defaults where one default is a literal of the wrong kind
+		if n >= 2 {
+			bad := []*CV{{Kind: 'd', D: 1.5}, {Kind: 'b', B: true}, {Kind: 'i', I: 3}, {Kind: 's', S: "x"}, {Kind: 'l'}}[r.Intn(5)]
+			var ds []*Def
+			for i := 0; i < n; i++ {
+				dv := &CV{Kind: 'm'}
+				if i == 0 {
+					dv = bad
+				}
+				ds = append(ds, &Def{Kind: 'S', SKind: 's', Name: name("S", i), Fields: []*Field{
+					{ID: i64p(1), Name: "f", Req: 'o', Ty: tref(name("S", i+1)), Dflt: dv}}})
+			}
+			add(oneFile(ds...), fmt.Sprintf("mutually nested struct defaults len %d with a mistyped literal", n), "")
+		}
 	}
 	// deep acyclic structures must be handled without overflowing
 	for _, depth := range []int{50, 400} {
@@ -451,5 +483,5 @@ func runC08(c *checker, r *rng.R) {
 		c08Case(c, p, false, "arbitrary bytes", "")
 	}
 	c.flush()
-	c.rep.Rule = "file sets run through compile.Compile + gen.Generate in a child process (20 s timeout, GOMEMLIMIT 1 GiB, ulimit -v 6 GiB, 64 MiB goroutine stack): structurally generated programs with every kind of reference cycle of length 1..k (typedef→typedef also through containers, typedef→struct→typedef, struct→struct, const→const with anonymous / named types and through literals, const↔struct default, service extends, include loop / self include), deep acyclic chains (400 levels), invalid references and includes; random valid programs; token-level mutations of valid IDL; arbitrary bytes. Outcome ∈ {ok, err, diverges (compile crash/timeout), gen-diverges} compared with the model's verdict (the AST of text inputs comes from the real parser); oracle: no crash/timeout. Non-trivial = structured, or accepted by the parser; distinct by input. The shapes of the repaired findings D4 D5 D6 D40 (constant cycles, service cycles, self-referential defaults) are part of the cycle stream and must end in an error."
+	c.rep.Rule = "file sets run through compile.Compile + gen.Generate in a child process (20 s timeout, GOMEMLIMIT 1 GiB, ulimit -v 6 GiB, 64 MiB goroutine stack): structurally generated programs with every kind of reference cycle of length 1..k (typedef→typedef also through containers, typedef→struct→typedef, struct→struct, const→const with anonymous / named types and through literals, const↔struct default, service extends, include loop / self include, the include loop carrying a service / constant / typedef cycle across files, typedef cycles with a literal of any kind cast to them, mutually nested struct defaults with a mistyped literal), deep acyclic chains (400 levels), invalid references and includes; random valid programs; token-level mutations of valid IDL; arbitrary bytes. Outcome ∈ {ok, err, diverges (compile crash/timeout), gen-diverges} compared with the model's verdict (the AST of text inputs comes from the real parser); oracle: no crash/timeout. Non-trivial = structured, or accepted by the parser; distinct by input. The shapes of the repaired findings D4 D5 D6 D40 (constant cycles, service cycles, self-referential defaults) are part of the cycle stream and must end in an error."
 }
